@@ -492,6 +492,10 @@ package lang
 //@   after Evaluator.evalCaseMatch: $nmatch = (ret0 && ret2 == nil ? $nmatch + 1 : $nmatch)
 //@   after Evaluator.evalStatement: $ranBlock = true
 //@   after Evaluator.evalExpr: $lastCell = ret0
+//@   init $keyDone = false
+//@   after Evaluator.evalString: $keyDone = true
+//@   after copyValue: $keyDone = false
+//@   assert[C13] object-literal-key-is-read-as-a-string-literal: istype(expr, *ExprObject) ==> $keyDone @ copyValue
 //@   after Evaluator.evalExpr: $recv = (ret1 == nil ? ret0.Value.Binding : $recv)
 //@   assert[C15] receiver-is-the-one-bound-at-lookup: arg2.Value.Binding == $recv @ Evaluator.callFunction
 //@   assert[C08,C09] operands-are-copied: arg2 @ Evaluator.evalExprList
@@ -969,6 +973,7 @@ package lang
 // statement parser that learns from it that the statement is over has to record that, or the enclosing
 // block sees the next statement's first token and reports "unexpected end of input".
 //@ ghost $sawEnd bool
+//@ ghost $keyDone bool
 //@ func Parser.printStatement [C01,C13]
 //@   requires parserOK(p)
 //@   updates nothing
